@@ -3,7 +3,7 @@ from copy import deepcopy
 from fractions import Fraction
 from xml.sax.saxutils import escape
 
-from bs4 import BeautifulSoup, NavigableString
+from bs4 import BeautifulSoup, Comment, NavigableString
 from bs4.formatter import XMLFormatter
 
 from ..base import (
@@ -238,6 +238,9 @@ class DFXPReader(BaseReader):
         return int(microseconds)
 
     def _convert_tag_to_node(self, tag):
+        # XML comments are not caption text
+        if isinstance(tag, Comment):
+            return
         # convert text
         if isinstance(tag, NavigableString):
             # strips indentation whitespace only
